@@ -389,7 +389,14 @@ start:
 
 			switch v := instr.(type) {
 			case *ir.Convert:
-				s.set(v, s.get(v.X))
+				if b, ok := v.X.Type().Underlying().(*types.Basic); ok && b.Info()&types.IsInteger != 0 && typeutil.IsPointerLike(v.Type()) {
+					// Converting an integer (uintptr) to unsafe.Pointer. Integers
+					// are never nil, but the resulting pointer is nil when the
+					// integer is zero.
+					s.setOuter(v, MaybeNil)
+				} else {
+					s.set(v, s.get(v.X))
+				}
 			case *ir.SliceToArrayPointer:
 				// Go does not currently allow (*T)(s) where T is a type
 				// parameter with a type set consisting of array types, but it
